@@ -160,6 +160,11 @@ class FakeSelector:
             if fileobj.closed:
                 raise ValueError("Invalid file descriptor: -1")
             raise KeyError("%r is not registered" % (fileobj,))
+        if fileobj.closed:
+            # what epoll does for a registered descriptor that has been closed behind the selector's back: the kernel call
+            # fails (EBADF) and selectors.modify drops the registration before re-raising
+            del self.map[fileobj]
+            raise OSError(9, 'Bad file descriptor')
         k = self.map[fileobj]
         k.events = events
         k.data = data
@@ -308,7 +313,21 @@ class SimNode:
         self.host = host
         net.current = self
         self.disk = disk if disk is not None else NullDisk()
-        lp = LocalPeer(disk_interface=self.disk)
+        # the node is brought up the way every script does it: NetworkingThread(coinstate, port, disk_interface) builds the
+        # LocalPeer and installs the start-up chain state (the thread itself is never started; the harness plays its loop).
+        # The peer book is supplied by the harness afterwards, so the start-up load (which would try the network) is empty.
+        from skepticoin.networking.threading import NetworkingThread
+        self.disk.load_peers = lambda: {}
+        try:
+            nt = NetworkingThread(coinstate, None, self.disk)
+        finally:
+            try:
+                del self.disk.load_peers
+            except AttributeError:
+                pass
+        lp = nt.local_peer
+        if not isinstance(lp, LocalPeer):
+            raise seams.HarnessError("NetworkingThread did not build a LocalPeer")
         try:
             lp.selector.close()
         except Exception:
@@ -317,7 +336,6 @@ class SimNode:
         lp.nonce = nonce if nonce is not None else (len(net.nodes) + 1) * 1111
         lp.running = True
         lp.chain_manager.started_at = int(net.clock())
-        lp.chain_manager.set_coinstate(coinstate)
         self.lp = lp
         self.lsock = None
         if listen:
@@ -452,11 +470,11 @@ class Remote:
     def send(self, message, in_response_to=0, deliver=True, ts=None):
         self.send_raw(self.frame(message, in_response_to, ts), deliver)
 
-    def hello(self, my_port=2412, nonce=987654, ts=None):
+    def hello(self, my_port=2412, nonce=987654, ts=None, agent=b'vf'):
         """ts: the (sender-chosen) time stamp in the message header"""
         from ipaddress import IPv6Address
         from skepticoin.networking.messages import HelloMessage, SupportedVersion
-        self.send(HelloMessage([SupportedVersion(0)], IPv6Address('::ffff:1.1.1.1'), 0, IPv6Address(0), my_port, nonce, b'vf'), ts=ts)
+        self.send(HelloMessage([SupportedVersion(0)], IPv6Address('::ffff:1.1.1.1'), 0, IPv6Address(0), my_port, nonce, agent), ts=ts)
 
     def received(self):
         """parse and drain everything the node has sent on this connection: list of (header, message)"""
